@@ -209,8 +209,17 @@ func (mbs *metadataPartStorage) AppendObject(ctx context.Context, bucketName sto
 			return storage.ErrTooManyParts
 		}
 
+		// Only the null version of a bucket without enabled versioning is
+		// extended in place. Any other current version (one created while
+		// versioning was enabled) is immutable: the append then writes a new
+		// version that shares the unchanged prefix, exactly as with versioning
+		// enabled.
+		createsNewVersion := versioningEnabled
+		if existingObject != nil && existingObject.VersionID != nil && *existingObject.VersionID != "null" {
+			createsNewVersion = true
+		}
 		if existingObject != nil {
-			if versioningEnabled {
+			if createsNewVersion {
 				// The new version shares the unchanged prefix. Pre-acquiring registry
 				// references prevents a concurrent delete from condemning those parts.
 				allParts = make([]metadatastore.Part, 0, len(existingObject.Parts)+1)
